@@ -132,10 +132,33 @@ def network_part(ck, tier, seed):
             ck.inconc("no event"); continue
         ev = evs[-1]
         # which observations did gama exclude?  ground truth from the hooks
+        # ground truth of what was excluded: the hook events (row index among the observations active at that
+        # time = all of them, nothing else is excluded in these networks).  gama may exclude more than the planted
+        # blunders (known finding of C14: angular terms are tested on the homogenised right-hand side, which mixes
+        # the observations of a correlated cluster); the sub-matrix rule is checked for whatever was excluded.
         removed = [e for e in g.trace if e.get("kind") == "rm_obs_abs_term"]
-        if len(removed) != len(excl):
-            ck.inconc("planted %d blunders, gama excluded %d" % (len(excl), len(removed)))
+        rows = []
+        for ci, cl in enumerate(net.clusters):
+            if cl.kind in ("obs", "hdiff"):
+                rows += [(ci, k) for k in range(len(cl.obs))]
+            elif cl.kind == "vectors":
+                rows += [(ci, None)] * (3 * len(cl.vecs))
+            elif cl.kind == "coords":
+                rows += [(ci, None)] * sum((2 if c[1] is not None else 0) + (1 if c[3] is not None else 0) for c in cl.cpoints)
+        actual = set()
+        okmap = True
+        for e in removed:
+            r = e["index"] - 1
+            if r >= len(rows) or rows[r][1] is None:
+                okmap = False
+                break
+            actual.add(rows[r])
+        if not okmap or not excl <= actual:
+            ck.inconc("excluded rows could not be mapped / planted blunder kept")
             continue
+        if len(actual) > len(excl):
+            ck.count("collateral exclusions in correlated clusters (C14 known finding)", len(actual) - len(excl))
+        excl = actual
         exp = expected_blocks(net, excl)
         if len(exp) != len(ev["blocks"]):
             ck.violation("blocks:count", "%d clusters with observations expected, %d covariance blocks adjusted" % (
